@@ -25,7 +25,8 @@ TT = ["bearer", "Bearer", "BEARER", "bEaReR", "mac", "MAC", "Mac", "dpop", "DPoP
 SCOPE_VALUES = ["", "a", "read write", "a  b", " a", "a ", "openid profile email", None, "é 日本", "a\tb", "a,b", "urn:acme:doc,rw", ",", "a,b c,d",
                 "a+b", "a;b", "a|b", "a\nb", "a\u00a0b", "a%20b", "a\u3000b", "a\rb", "repo,user", "read:org,write:org", "a,", ",a", "a\u2003b", "https://x/y?z=1&w=2"]
 UNKNOWN_NAMES = ["foo", "id", "x", "Access_Token", "access-token", "expires", "scopes", "data", "é", "", "active2", "error", "error_description"]
-URLS_VALID = ["https://verify/here", "https://example.com/device?x=1", "HTTPS://EXAMPLE.COM/Dev", "https://exämple.com/ü", "custom:opaque", "https://e/" + "v" * 200]
+URLS_VALID = ["https://verify/here", "https://example.com/device?x=1", "HTTPS://EXAMPLE.COM/Dev", "https://exämple.com/ü", "custom:opaque", "https://e/" + "v" * 200,
+              "http://device.example.com/activate", "ftp://example.com/pub/device", "com.example.tv:/activate", "http://192.0.2.7:8080/device"]
 URLS_INVALID = ["", "verify/here", "//host/x", "https://", "not a url", "http://[::1"]
 
 
